@@ -131,18 +131,18 @@ def check(run, F, tier):
             exs = explore.Explorer(F, inline_pred=lambda ex, callee, info: callee.get("name") == "is_success")
             dm = {d: n for n, d in F.discr_map(adt).items()}
             got = {}
-            for p in exs.run(f["path"]):
-                if p.kind != "return" or not (p.ret and p.ret[0] == "c"):
-                    continue
-                # receiver variant: constraints on discr of *self
-                poss = None
-                for k, c in p.cons.items():
-                    if k[0] == "discr" and k[2] == adt:
-                        poss = conn.possible(F, p, k[1], adt)
-                if poss is None:
-                    poss = set(dm.values())
-                for n in poss:
-                    got.setdefault(n, set()).add(p.ret[1] == 1)
+            # evaluated per variant on a concrete receiver: whatever the predicate's spelling (match table, ==, matches!,
+            # numeric test on the discriminant, delegation to the sibling predicate) the abstract run folds to a constant
+            for n in dm.values():
+                def setup(exx, st, fr, n=n):
+                    st.heap[(("self",), ())] = ("agg", adt, n, ())
+                exv = explore.Explorer(F, inline_pred=lambda ex, callee, info: callee.get("name") in ("is_success", "is_failure") or
+                                       (callee.get("impl_self", "") == adt and len(callee["blocks"]) <= 12))
+                for p in exv.run(f["path"], setup=setup):
+                    if p.kind == "return" and p.ret and p.ret[0] == "c":
+                        got.setdefault(n, set()).add(p.ret[1] == 1)
+                    elif p.kind == "return":
+                        got.setdefault(n, set()).add(None)
             bad = []
             for d, n in dm.items():
                 succ = (d == 0) if adt.endswith("ConnectReturnCode") else (d < 0x80)   # v3.1.1 CONNACK: only 0 accepts
